@@ -74,6 +74,7 @@ def run(chk, prop):
     keep = 0.25 if quick else 1.0
     cfg = {"constants": {"Depth": str(depth), "Types": tla_set(valgen.SCALAR_TYPES),
                          "ContainerSet": '"%s"' % cset},
+           "overrides": {"SeedTapes": "QuickSeedTapes" if quick else "AllSeedTapes"},
            "invariants": INVS[prop], "view": "View"}
     res = chk.model_check("MC_Sub", cfg, dump=True)
     cache = valgen.SchemaCache(chk)
